@@ -129,6 +129,22 @@ func (e *env) judgeText(text string) (bad string, accepted bool) {
 	if b := checkResult("Do", r, parsedOK, validOK); b != "" {
 		return b, parsedOK
 	}
+	// the same request with every value deferred (thunks at every level, list items one by
+	// one): the response is still well-formed
+	if parsedOK && validOK {
+		e.f.W.AllDeferred = true
+		var rd *graphql.Result
+		b := guard("Do with deferred values", func() {
+			rd = graphql.Do(graphql.Params{Schema: e.f.B.Schema, RequestString: text, RootObject: e.f.Root, Context: e.f.Ctx})
+		})
+		e.f.W.AllDeferred = false
+		if b != "" {
+			return b, parsedOK
+		}
+		if b := checkResult("Do with deferred values", rd, parsedOK, validOK); b != "" {
+			return b, parsedOK
+		}
+	}
 	// Subscribe: must deliver at least one result or close (kitchen has no stream source)
 	var rs []*graphql.Result
 	var hang string
@@ -205,7 +221,8 @@ func topologies(thorough bool) []string {
 	if !thorough {
 		bodies = bodies[:7]
 	}
-	var out []string
+	// valid documents over lists, lists of lists and abstract list items (deferred-value pass)
+	out := []string{"{l{x o{y l{x}}} ll{x y} li{x ... on O{y o{x}}} ln{n}}", "{o{l{o{l{x}}}} u{... on O{l{y}}}}"}
 	for _, op := range []string{"{a}", "{o{...A}}", "{o{...A ...B}}", "{o{o{...B}}}", "query Q{o{...A}} query R{o{...B}}", "{...A}",
 		// the same spreads below same-key fields of two object types (compared as mutually exclusive)
 		"{i{... on O{o{...A}} ... on P{o{...A}}}}", "{i{... on O{o{...A}} ... on P{o{...B}}}}",
